@@ -211,7 +211,15 @@ def worker(ctx):
                 with open(os.path.join(od, "api.c"), "w") as fh:
                     fh.write(api_source(root, main_h, with_json=(mode == "std")))
                 if mode == "optF":
-                    continue  # -F leaves some messages without functions: compile-only
+                    # -F leaves some messages without functions: C compile-only, plus the header through a C++ compiler
+                    with open(os.path.join(od, "hdr.cpp"), "w") as fh:
+                        fh.write(f'#include "{main_h}"\nint main() {{ return 0; }}\n')
+                    rc, log = sh(["g++", "-std=c++11", "-w", "-fsyntax-only", "-I", od, "-I", env.CLIB_DIR, "hdr.cpp"], cwd=od)
+                    res.count("cxx_header_syntax_checks")
+                    if rc != 0:
+                        err = re.search(r"error: ([^\n]*)", log)
+                        res.violation("cxx-build", f"{main_h} (-O -F) cannot be included from C++: {err.group(1) if err else log[-300:]}", {**wit, "mode": mode})
+                    continue
                 lib = [os.path.join(env.CLIB_DIR, "bitproto.c")] if mode == "std" else []
                 rc, log = sh(["gcc", "-std=gnu99", "-w", "-I", od, "-I", env.CLIB_DIR, "api.c"] + objs + lib + ["-o", "api_c"], cwd=od)
                 res.count("c_links")
